@@ -161,12 +161,12 @@ def layout_dir():
     return d
 
 # ------------------------------------------------------------------ translation
-def translate(fam, roots, stubs=(), keep_virtual=(), tag=''):
+def translate(fam, roots, stubs=(), keep_virtual=(), tag='', cuts=()):
     """IR -> C for the call closure of `roots`; functions matching `stubs` stay extern.
     returns (path to gen.c, info dict)"""
     ll = fam.build()
     ir2c = os.path.join(VERIF, 'irbmc', 'ir2c.py')
-    key = sha(ll, fread(ir2c), '\n'.join(roots), '\n'.join(stubs), '\n'.join(keep_virtual))
+    key = sha(ll, fread(ir2c), '\n'.join(roots), '\n'.join(stubs), '\n'.join(keep_virtual), '\n'.join(cuts))
     d = os.path.join(CACHE, 'gen'); os.makedirs(d, exist_ok=True)
     out = os.path.join(d, '%s.%s.%s.c' % (fam.name, tag or 'g', key))
     with klock(out):
@@ -175,6 +175,7 @@ def translate(fam, roots, stubs=(), keep_virtual=(), tag=''):
             for r in roots: cmd += ['--root', r]
             for r in stubs: cmd += ['--stubre', r]
             for r in keep_virtual: cmd += ['--keep-virtual', r]
+            for r in cuts: cmd += ['--cut', r]
             r = run(cmd)
             if r.returncode != 0: raise BuildError('ir2c failed: ' + r.stderr[-3000:])
             open(out + '.info', 'w').write(r.stderr)
@@ -183,13 +184,14 @@ def translate(fam, roots, stubs=(), keep_virtual=(), tag=''):
     return out, info
 
 def parse_ir2c_info(txt):
-    info = dict(translated=0, failed=0, external=0, fails=[], ext=[], roots=[], funcs=[])
+    info = dict(translated=0, failed=0, external=0, fails=[], ext=[], roots=[], funcs=[], cuts=[])
     m = re.search(r'translated (\d+) functions, (\d+) failed, (\d+) external', txt)
     if m: info.update(translated=int(m.group(1)), failed=int(m.group(2)), external=int(m.group(3)))
     for ln in txt.split('\n'):
         if ln.startswith('FAIL '): info['fails'].append(ln[5:])
         elif ln.startswith('EXT '): info['ext'].append(ln[5:])
         elif ln.startswith('ROOT '): info['roots'].append(ln[5:])
+        elif ln.startswith('CUT  '): info['cuts'].append(ln[5:])
         elif ln.startswith('FUNC '): info['funcs'].append(ln[5:])
     return info
 
@@ -288,7 +290,8 @@ STRING_MODEL = [r'^std::__cxx11::basic_string<char, std::char_traits<char>, std:
 # ------------------------------------------------------------------ harness description
 class Harness:
     def __init__(self, name, fam, roots, src, stubs=(), keep_virtual=(), shapes=None, opts=(), timeout=300, mem_gb=8,
-                 inputs=(), units=None, required_witness=('witness',), note='', replay=None, allow_nobody=(), defines=None, string_model=False):
+                 inputs=(), units=None, required_witness=('witness',), note='', replay=None, allow_nobody=(), defines=None, string_model=False, cuts=()):
+        self.cuts = list(cuts)
         self.string_model = string_model
         if string_model:
             stubs = list(stubs) + STRING_MODEL
@@ -310,8 +313,9 @@ def shape_defs(h, shape, tier):
 
 def prepare(h, workdir):
     """translate + assemble the single TU; returns (cfile, info)"""
-    gen, info = translate(h.fam, h.roots, h.stubs, h.keep_virtual, tag=re.sub(r'\W', '_', h.name))
+    gen, info = translate(h.fam, h.roots, h.stubs, h.keep_virtual, tag=re.sub(r'\W', '_', h.name), cuts=getattr(h, 'cuts', ()))
     os.makedirs(workdir, exist_ok=True)
+    if getattr(h, 'pre', None): h.pre(workdir)
     cfile = os.path.join(workdir, re.sub(r'\W', '_', h.name) + '.c')
     with open(cfile, 'w') as o:
         o.write('/* generated: %s */\n#include "%s"\n#include "%s"\n' % (h.name, gen, os.path.join(VERIF, 'rt', 'verif_rt.c')))
@@ -333,11 +337,16 @@ def run_shape(h, cfile, shape, tier):
     unknown = [p for p in r['props'] if p['res'] == 'UNKNOWN']
     kinds = {}
     for p in fails:
-        k = classify(p['desc'], p['id']); kinds.setdefault(k, []).append(p)
+        k = classify(p['desc'], p['id'])
+        if k == 'unwind' and getattr(h, 'termination_claim', None) and p['id'].startswith('F__Z'):
+            # the unwind bound of this harness is derived from the input length (every iteration of a loop of the real code must
+            # consume input): exceeding it is a termination/progress violation of the code under test, not a harness limit
+            k = 'violation'; p['desc'] = h.termination_claim + ' [' + p['desc'] + ' in ' + p['id'][:60] + ']'
+        kinds.setdefault(k, []).append(p)
     wit_descs = [p['desc'] for p in kinds.get('witness', [])]
     req_w = shape.get('_witness', h.required_witness)
     res['witness_ok'] = all(any(w in dsc for dsc in wit_descs) for w in req_w)
-    res['failed'] = [dict(id=p['id'], desc=p['desc'], kind=classify(p['desc'], p['id'])) for p in fails if classify(p['desc'], p['id']) != 'witness']
+    res['failed'] = [dict(id=p['id'], desc=p['desc'], kind=k) for k, ps in kinds.items() if k != 'witness' for p in ps]
     if nb:
         res['verdict'] = 'INCONCLUSIVE'; res['why'] = 'no body for: ' + ', '.join(nb[:6])
     elif unknown and not fails:
